@@ -918,6 +918,12 @@ func c05(c *core.Ctx) {
 		}
 	})
 
+	// C05.8: "the amount moves only if the transaction succeeds" needs an exact, correctly paired revert, and "charged exactly gasUsed x
+	// gasPrice, gasUsed <= gasLimit" needs the EVM's gas bracket: the change-journal clauses of C07 and the sandbox clauses of C16 are necessary
+	// conditions of C05 as well and are evaluated here under their own keys
+	c07(c)
+	c16(c)
+
 	c.NotDecidedf("the numeric equalities themselves are NOT decided: that the sum of all balances is unchanged by a block, that Σ fees debited = Σ fees credited as numbers, that DivideSalary's shares add up to at most the term reward, that IsRewardBlock is true once per term")
 	c.NotDecidedf("value flows inside the EVM beyond the Transfer hook (contract.UseGas, gas refunds of SSTORE, precompile pricing), and flows of the gas figure through struct fields, maps or interfaces (C05.3b lists any such escape as undecided instead of guessing)")
 	c.NotDecidedf("that chargeForGas finds an income address (it silently burns the fees otherwise); that a panic in SetBalance is the right reaction to a negative value (it is a crash, see D32's history); big.Int aliasing through values other than GetBalance's result")
